@@ -576,3 +576,79 @@ pub mod output {
         log(|| Event::Leave { out, kind, ok });
     }
 }
+
+/// C18: log of the operations the VM performs on closure objects (`State::closures`) and
+/// on the closure fields of frames and macro values, each with the closure attachments of
+/// all frames of the context it happened in (as they are after the operation).
+pub mod closures {
+    use std::cell::RefCell;
+
+    /// `(Frame::closure, Frame::closure_context)` of every frame, bottom first.
+    pub type Attachments = Vec<(Option<usize>, Option<usize>)>;
+
+    /// One operation.
+    #[derive(Debug, Clone, PartialEq, Eq)]
+    pub enum Op {
+        /// `Context::push_frame` (`true`: a loop frame).
+        PushFrame(bool),
+        /// `Context::pop_frame`.
+        PopFrame,
+        /// `Context::store(key, _)`; the closure object the store was mirrored into.
+        Store(String, Option<usize>),
+        /// `Instruction::Enclose(key)`; the closure object of the frame afterwards.
+        Enclose(String, Option<usize>),
+        /// `BuildMacro`: name, instructions id, offset of the body, closure of the value.
+        BuildMacro(String, usize, u32, Option<usize>),
+        /// `next_loop_item` yielded an item (locals cleared, closure detached).
+        Iterate,
+        /// `take_closure` of an include.
+        TakeClosure(Option<usize>),
+        /// `reset_closure`: after an include, or a closure object created by `Enclose`.
+        ResetClosure(Option<usize>),
+        /// A macro value is about to be called (`eval_macro`): instructions id, offset,
+        /// closure of the value, the keys that closure object has now (sorted), whether
+        /// `caller` is passed.  Logged without attachments; the `PushFrame` (and the
+        /// `Store` of `caller`) that follow happen in the context of the call.
+        EnterMacro(usize, u32, Option<usize>, Vec<String>, bool),
+        /// The macro call returned (or failed) and the caller's context is back.
+        LeaveMacro,
+    }
+
+    /// An operation and the closure attachments after it.
+    #[derive(Debug, Clone, PartialEq, Eq)]
+    pub struct Event {
+        /// What happened.
+        pub op: Op,
+        /// The closure attachments of the frames of the active context afterwards.
+        pub frames: Attachments,
+    }
+
+    thread_local! {
+        static LOG: RefCell<Option<Vec<Event>>> = const { RefCell::new(None) };
+    }
+
+    /// Starts logging on this thread.
+    pub fn start() {
+        LOG.with(|x| *x.borrow_mut() = Some(Vec::new()));
+    }
+
+    /// Stops logging and returns the events.
+    pub fn stop() -> Vec<Event> {
+        LOG.with(|x| x.borrow_mut().take()).unwrap_or_default()
+    }
+
+    #[inline]
+    #[cfg_attr(not(feature = "macros"), allow(dead_code))]
+    pub(crate) fn enabled() -> bool {
+        LOG.with(|x| x.borrow().is_some())
+    }
+
+    #[cfg_attr(not(feature = "macros"), allow(dead_code))]
+    pub(crate) fn log(op: Op, frames: Attachments) {
+        LOG.with(|x| {
+            if let Some(log) = x.borrow_mut().as_mut() {
+                log.push(Event { op, frames });
+            }
+        });
+    }
+}
